@@ -98,14 +98,26 @@ func fiDeserialize(b []byte) (idx fontscan.VerifIndex, res string) {
 	return idx, "ok"
 }
 
-func fiExec(enc *json.Encoder, t int, ops []fiOp, contents map[int][]byte, readSweep bool, rng *rand.Rand) {
+// linkMode: the path "a.ttf" of the scanned tree is a symbolic link to a file kept outside the tree; writes
+// go through the link (the target is rewritten, the link itself is never touched again). For the index a
+// link is the file it points to (its content and modification time).
+func fiExec(enc *json.Encoder, t int, ops []fiOp, contents map[int][]byte, readSweep bool, rng *rand.Rand, linkMode bool) {
 	dir, err := os.MkdirTemp("", "vfidx")
 	if err != nil {
 		panic(err)
 	}
 	dir, _ = filepath.EvalSymlinks(dir)
 	defer os.RemoveAll(dir)
-	enc.Encode(map[string]interface{}{"t": t, "ev": "New"})
+	tdir, nlinks := "", 0
+	if linkMode {
+		tdir, err = os.MkdirTemp("", "vfidxt")
+		if err != nil {
+			panic(err)
+		}
+		tdir, _ = filepath.EvalSymlinks(tdir)
+		defer os.RemoveAll(tdir)
+	}
+	enc.Encode(map[string]interface{}{"t": t, "ev": "New", "link": linkMode})
 	clock := 0
 	tick := func() (int, time.Time) { clock++; return clock, fiBase.Add(time.Duration(clock) * time.Second) }
 	var index fontscan.VerifIndex
@@ -116,6 +128,14 @@ func fiExec(enc *json.Encoder, t int, ops []fiOp, contents map[int][]byte, readS
 		switch op.Op {
 		case "Write", "WriteOld":
 			os.MkdirAll(filepath.Dir(full), 0o755)
+			if linkMode && op.P == "a.ttf" {
+				if _, err := os.Lstat(full); err != nil {
+					nlinks++
+					target := filepath.Join(tdir, fmt.Sprintf("target-%d.ttf", nlinks)) // a renamed link keeps its own target
+					os.WriteFile(target, contents[op.C], 0o644)
+					os.Symlink(target, full)
+				}
+			}
 			os.WriteFile(full, contents[op.C], 0o644)
 			m, tm := tick()
 			if op.Op == "WriteOld" {
@@ -273,10 +293,19 @@ func fidxMain(args []string) error {
 	for len(sweepAt) < sweeps && len(sweepAt) < len(hists) {
 		sweepAt[rng.Intn(len(hists))] = true
 	}
+	linked := 0
 	for t, ops := range hists {
-		fiExec(sw.encs[t%shards], t, ops, contents, sweepAt[t], rng)
+		fiExec(sw.encs[t%shards], t, ops, contents, sweepAt[t], rng, false)
+		// the same history with a.ttf reached through a symbolic link, when it writes that path
+		for _, op := range ops {
+			if (op.Op == "Write" || op.Op == "WriteOld") && op.P == "a.ttf" {
+				fiExec(sw.encs[t%shards], len(hists)+t, ops, contents, false, rng, true)
+				linked++
+				break
+			}
+		}
 	}
-	fmt.Printf("{\"histories\": %d, \"sweeps\": %d}\n", len(hists), len(sweepAt))
+	fmt.Printf("{\"histories\": %d, \"through_symlink\": %d, \"sweeps\": %d}\n", len(hists), linked, len(sweepAt))
 	return nil
 }
 
